@@ -230,5 +230,27 @@ def run(ck):
         ck.compile_props()
     else:
         ck.oblige("Props_C01.v:C01_roundtrip", False, "instance obligation wf_ok failed", kind="theorem")
+    from lib.escape_check import run_escape
+    run_escape(ck)
     run_correspondence(ck, tab, T, per_class=ck.n(3, 12), depth=ck.n(2, 4))
     run_documents(ck, T, n=ck.n(6, 40), depth=ck.n(3, 4))
+
+
+def replay(ck, data):
+    inp = data.get("input") or {}
+    if isinstance(inp, dict) and any(k in inp for k in ("string", "text", "z", "value")) and "tree" not in inp:
+        from lib.escape_check import replay_escape
+        return replay_escape(ck, data)
+    tab = bindings.translate(ck)
+    T = bindings.Tables(tab)
+    order = {c: T.field_order(c) for c in T.order}
+    mode = "document" if inp.get("tag") == "neuroml" else "component"
+    payload = {"order": order, "cases": [inp]}
+    if mode == "document":
+        payload["mode"] = "document"
+    r = ck.impl("gds_impl.py", payload)["results"][0]
+    back = r.get("back") or r.get("back0")
+    same = back is not None and back == r.get("obj")
+    print(json.dumps({"input": inp, "written": r.get("text") or r.get("text0"), "same_after_round_trip": same,
+                      "error": r.get("xml_err") or r.get("back_err") or r.get("err")}, indent=1)[:6000])
+    return 0 if same else 1
